@@ -1,5 +1,6 @@
 import ExprModel.Gen.ParserTables
-import ExprModel.Syntax.Parser
+import ExprModel.Proofs.ParsePrintTop
+import ExprModel.Proofs.ParserMono
 /-
 C11 — Parsing follows the documented precedence and associativity.
 
@@ -43,6 +44,103 @@ theorem table_coherent : Coherent Gen.parserTables := by
 /-- keys are unique (so `List.lookup` is the Go map lookup) -/
 theorem table_keys_nodup :
     (Gen.unaryOperators.map (·.1)).Nodup ∧ (Gen.binaryOperators.map (·.1)).Nodup ∧ (Gen.builtins.map (·.1)).Nodup := by
+  decide +kernel
+
+/-! ### The round trip: parsing the printed text of a canonical tree gives the tree back -/
+
+/-- the code's tables satisfy everything the round trip needs (coherence, positive powers, operator
+    names distinct from the punctuation of the grammar, builtin names not reserved words) -/
+theorem tables_ok : TbOK Gen.parserTables := tbOK_of_check (by decide +kernel)
+
+/-- The parser configuration of the theorems: the tables are those generated from parser.go; the number
+    conversion is a parameter constrained only by "reading a printed literal gives its value" (C12). -/
+structure Setting (cfg : Cfg) (sh : NumShow) : Prop where
+  tables : cfg.tb = Gen.parserTables
+  int_rt : ∀ n : Nat, cfg.num (sh.showInt n) = some (.int n)
+  float_rt : ∀ b : UInt64, cfg.num (sh.showFloat b) = some (.float b)
+
+theorem Setting.hyp {cfg : Cfg} {sh : NumShow} (s : Setting cfg sh) : Hyp cfg sh :=
+  ⟨s.tables ▸ tables_ok, s.int_rt, s.float_rt⟩
+
+/-- **Round trip.** For every canonical tree `t` (the decidable predicate `canon cfg 0 t`: operators in
+    the tables, literals non-negative, closures/`#` only where the grammar puts them, `NilSafe`
+    identifiers only directly before `?.`, no types attached), every choice `pc` of redundant parentheses
+    and every location of the EOF token: with enough fuel, parsing the text printed with the parentheses
+    the documented rule requires (plus the redundant ones) yields exactly `t` — including all locations,
+    since `print` gives each defining token its node's location. -/
+theorem parse_print {cfg : Cfg} {sh : NumShow} (hs : Setting cfg sh) (t : Node) (hc : canon cfg 0 t = true)
+    (pc : ParenChoice) (l : Loc) :
+    ∃ f₀, ∀ f, f₀ ≤ f → parseFuel cfg f (printEof cfg sh pc l t) = .ok t :=
+  parse_print_fuel cfg sh pc hs.hyp t hc l
+
+/-- Redundant parentheses never change the tree: any two parenthesis choices parse to the same tree. -/
+theorem paren_invariance {cfg : Cfg} {sh : NumShow} (hs : Setting cfg sh) (t : Node) (hc : canon cfg 0 t = true)
+    (pc pc' : ParenChoice) (l : Loc) :
+    ∃ f₀, ∀ f, f₀ ≤ f →
+      parseFuel cfg f (printEof cfg sh pc l t) = parseFuel cfg f (printEof cfg sh pc' l t) := by
+  obtain ⟨f1, h1⟩ := parse_print hs t hc pc l
+  obtain ⟨f2, h2⟩ := parse_print hs t hc pc' l
+  exact ⟨max f1 f2, fun f hf => by rw [h1 f (by omega), h2 f (by omega)]⟩
+
+/-- Fuel monotonicity: once the parser model has an answer (tree or error), more fuel gives the same answer. -/
+theorem parse_mono (cfg : Cfg) {f f' : Nat} (hf : f ≤ f') (ts : List Token) (h : parseFuel cfg f ts ≠ .outOfFuel) :
+    parseFuel cfg f' ts = parseFuel cfg f ts :=
+  parseFuel_mono cfg hf ts h
+
+/-- The same for every parser function (`Le a b`: `a` is out of fuel or equal to `b`). -/
+theorem parse_mono_all (cfg : Cfg) (f : Nat) : MonoAt cfg f := monoAt cfg f
+
+/-! ### Goals that are stated but not proved in this round -/
+
+/-- Termination with a bound linear in the number of tokens (the model "never hangs"): the fuel the
+    driver uses is always enough.  Checked on every correspondence input (the driver never answers
+    `(fuel)`), not proved. -/
+def parse_fuel_sufficient_goal : Prop :=
+  ∀ (cfg : Cfg) (ts : List Token), parseFuel cfg (fuelFor ts) ts ≠ .outOfFuel
+
+/-- Rejection side: whatever the parser accepts is the printed text of its result up to redundant
+    parentheses, trailing commas and alternative spellings (`?:`, `.x`, identifier/number map keys). -/
+def parse_sound_goal : Prop :=
+  ∀ (cfg : Cfg) (sh : NumShow), Setting cfg sh → ∀ (ts : List Token) (f : Nat) (t : Node),
+    parseFuel cfg f ts = .ok t → canon cfg 0 t = true
+
+/-! ### Non-vacuity and the witness of the one deviation found -/
+
+/-- a concrete setting: decimal integers, one float spelling -/
+def demoCfg : Cfg :=
+  { tb := Gen.parserTables,
+    num := fun s => if s == "1.5" then some (.float 4609434218613702656) else s.toNat?.map (fun n => .int n) }
+
+private def i (n : String) : Node := .ident {} n false
+
+/-- `a * (not b) * c ? -x.y[1:] : f(len(zs), [1, {k: 2}])?.m()` as a tree -/
+def demoTree : Node :=
+  .cond {}
+    (.binary {} "*" (.binary {} "*" (i "a") (.unary {} "not" (i "b"))) (i "c"))
+    (.unary {} "-" (.slice {} (.prop {} (i "x") "y" false) (some (.int {} 1)) none))
+    (.method {} (.func {} "f" [.builtin {} "len" [i "zs"],
+        .array {} [.int {} 1, .map {} [.pair {} (.str {} "k") (.int {} 2)]]] false) "m" [] true)
+
+example : canon demoCfg 0 demoTree = true := by decide +kernel
+
+/-- the minimal printing inserts exactly the parentheses around `not b` -/
+example : (print demoCfg ⟨toString, fun _ => "1.5"⟩ (fun _ => 0)
+      (.binary {} "*" (.binary {} "*" (i "a") (.unary {} "not" (i "b"))) (i "c"))).map (·.value) =
+    ["a", "*", "(", "not", "b", ")", "*", "c"] := by decide +kernel
+
+/-- **Witness of the deviation** (known finding `c11:paren-ident-nilsafe`): redundant parentheses around
+    an identifier that is followed by `?.` change the tree — the identifier loses `NilSafe`.  This is why
+    `print` never parenthesises a nil-safe identifier and `canon` ties the flag to the following `?.`. -/
+def identFlagOf : Outcome → Option (String × Bool × String × Bool)
+  | .ok (.prop _ (.ident _ n ns) p s) => some (n, ns, p, s)
+  | _ => none
+
+theorem paren_ident_nilsafe_witness :
+    identFlagOf (parseFuel demoCfg 12
+      [tok .identifier "a", tok .operator "?.", tok .identifier "b", eofTok]) = some ("a", true, "b", true) ∧
+    identFlagOf (parseFuel demoCfg 12
+      [lparen, tok .identifier "a", rparen, tok .operator "?.", tok .identifier "b", eofTok]) =
+        some ("a", false, "b", true) := by
   decide +kernel
 
 end ExprModel.C11
